@@ -80,10 +80,13 @@ func (d *Provider) Block() {
 		return
 	}
 	for key, defaultVal := range d.defaultInstances {
+		if _, ok := d.factories[key]; ok {
+			// an explicit factory has priority over a default instance
+			continue
+		}
 		if _, ok := d.instances[key]; !ok {
 			if d.autoclean {
 				delete(d.defaultFactories, key)
-				delete(d.factories, key)
 			}
 			d.instances[key] = defaultVal
 		}
